@@ -193,6 +193,36 @@ impl AssetCategorizer {
         })
     }
 
+    /// Sets the final fee and gives the last output exactly what is left, so that
+    /// inputs = outputs + fee. The fee depends on the size of the last output's coin and that
+    /// coin on the fee: estimate the fee, give the last output the rest, then measure again with
+    /// the real coin. A transaction that cannot be balanced is refused, never emitted.
+    pub(crate) fn finalize_tx(&self, tx_proposal: &mut TxProposal) -> Result<(), JsError> {
+        self.set_min_ada_for_tx(tx_proposal)?;
+        tx_proposal.balance_last_output()?;
+        let mut tx_size = self.set_min_ada_for_tx(tx_proposal)?;
+        if tx_proposal.get_need_ada()? != Coin::zero()
+            || tx_proposal.get_unused_ada()? != Coin::zero()
+        {
+            tx_proposal.balance_last_output()?;
+            let fee = tx_proposal.get_fee().clone();
+            tx_size = self.set_min_ada_for_tx(tx_proposal)?;
+            if tx_proposal.get_fee() > &fee {
+                return Err(JsError::from_str("Unable to balance transaction batch"));
+            }
+            tx_proposal.set_fee(&fee);
+        }
+        if tx_proposal.get_need_ada()? != Coin::zero()
+            || tx_proposal.get_unused_ada()? != Coin::zero()
+        {
+            return Err(JsError::from_str("Unable to balance transaction batch"));
+        }
+        if tx_size > self.config.max_tx_size as usize {
+            return Err(JsError::from_str("Unable to build transaction batch"));
+        }
+        Ok(())
+    }
+
     pub(crate) fn has_assets(&self) -> bool {
         !self.free_asset_to_utxos.is_empty()
     }
@@ -624,10 +654,16 @@ impl AssetCategorizer {
         let mut dependable_value = None;
         let mut min_value = None;
         if let Some(last_output) = tx_proposal.get_outputs().last() {
+            // what the other outputs leave over is shared by the last output and the fee
+            // (it must not depend on the fee or the last output's coin of a previous estimate)
+            let other_outputs_ada = tx_proposal
+                .get_total_ada_for_ouputs()?
+                .checked_sub(&last_output.get_total_ada())?;
             dependable_value = Some(
                 tx_proposal
-                    .get_unused_ada()?
-                    .checked_add(&last_output.get_total_ada())?,
+                    .total_ada
+                    .checked_sub(&other_outputs_ada)
+                    .unwrap_or(Coin::zero()),
             );
             min_value = Some(last_output.get_min_ada());
             tx_len -= CborCalculator::get_coin_size(&last_output.get_total_ada());
